@@ -100,3 +100,101 @@ theorem variants_accept {rec : Schema → Id → Bool} {n m : Nat} (hm : m < n) 
   | error e => simp only; intro hc; simp only [Except.error.injEq] at hc; subst hc; exact hr rfl
 
 end TypifyModel.Conv
+
+namespace TypifyModel.Conv
+open TypifyModel TypifyModel.Serde TypifyModel.Validate
+
+variable (x : Serde.Ext) (vx : Validate.Ext) (σ : Space) (d : Doc)
+
+/-- externally tagged unions -/
+theorem ext_accepts {rec : Schema → Id → Bool} {n m : Nat} (hm : m < n) (hrec : Hrec x vx σ d rec n)
+    {t : Id} {nm : String} {variants : List Variant} {deny : Bool} {dfl : Option Json} {bes : List Bespoke}
+    {ed : List String} {im : List Impl} {ss : List Schema} {v : Json}
+    (hget : σ.get t = some ⟨.enum nm .external variants deny dfl bes, ed, im⟩)
+    (hnd : nodupB (variants.map (·.wire)) = true)
+    (hall : ss.all (extBranchB rec σ deny variants) = true)
+    {c : Nat} (hc : countV (fun s' => valid vx d m s' v) ss = some c) (hpos : 0 < c) (f : Nat) :
+    NR (de x σ (f + 1) t v) := by
+  obtain ⟨k, s, hk, hs⟩ := countV_pos hc hpos
+  have hbr := (List.all_eq_true.mp hall) s (List.mem_of_getElem? hk)
+  unfold extBranchB at hbr
+  split at hbr
+  · -- a string naming a data-less variant
+    rename_i vs
+    cases m with
+    | zero => simp [valid] at hs
+    | succ m' =>
+      simp only [valid, Option.some.injEq] at hs
+      obtain ⟨e, hem, heq⟩ := List.any_eq_true.mp hs
+      have he := (List.all_eq_true.mp hbr) e hem
+      cases e <;> simp at he
+      rename_i w
+      have hvw : v = .str w := beq_str_left heq
+      subst hvw
+      obtain ⟨vr, hvrm, hvrw, hvrs⟩ := he
+      simp only [de, hget]
+      have hfind : variants.find? (fun q => q.wire == w) = some vr := by
+        have := nodupB_find_gen (·.wire) hnd vr hvrm
+        simpa [hvrw] using this
+      obtain ⟨i, hi, hgi⟩ := find_findIdx hfind
+      rw [hi]
+      simp only [hgi]
+      cases vr with
+      | mk raw ident det' =>
+        simp only [isSimple] at hvrs
+        cases det' <;> simp at hvrs
+        simp [NR]
+  · -- a closed single-member object
+    rename_i k0 sk k0'
+    simp only [Bool.and_eq_true, beq_iff_eq] at hbr
+    obtain ⟨hkk, hbr⟩ := hbr
+    subst hkk
+    split at hbr
+    · rename_i vr hfind
+      cases m with
+      | zero => simp [valid] at hs
+      | succ m' =>
+        cases v with
+        | obj kvs =>
+          simp only [valid] at hs
+          obtain ⟨hreq, hmem⟩ := and3_true hs
+          simp only [Option.some.injEq, List.all_cons, List.all_nil, Bool.and_true] at hreq
+          have hmem' := membersV_spec hmem
+          -- every member is keyed k0 and valid under sk
+          have hall' : ∀ kv ∈ kvs, kv.1 = k0 ∧ valid vx d m' sk kv.2 = some true := by
+            intro kv hkv
+            rcases hmem' kv hkv with ⟨q, hq, hvq⟩ | ⟨_, hno⟩
+            · simp only [List.find?] at hq
+              split at hq
+              · rename_i hkey
+                simp only [Option.some.injEq] at hq; subst hq
+                exact ⟨(by simpa using hkey : k0 = kv.1).symm, hvq⟩
+              · simp at hq
+            · exact absurd rfl hno
+          cases kvs with
+          | nil => simp [Json.lookup] at hreq
+          | cons a rest =>
+            obtain ⟨ka, body⟩ := a
+            obtain ⟨hka, hvb⟩ := hall' (ka, body) (by simp)
+            simp only at hka hvb
+            subst hka
+            simp only [de, hget]
+            have hrest : rest.all (fun kv => kv.1 == ka) = true := by
+              apply List.all_eq_true.mpr
+              intro kv hkv
+              have := (hall' kv (by simp [hkv])).1
+              simp [this]
+            simp only [hrest, Bool.not_true, Bool.false_eq_true, if_false]
+            obtain ⟨i, hi, hgi⟩ := find_findIdx hfind
+            rw [hi]
+            simp only [hgi]
+            have hnr := variant_accepts x vx σ d (m := m') (by omega) hrec hbr hvb f true
+            revert hnr; generalize deVariantBody x σ f vr.details deny true body = r; intro hr
+            cases r with
+            | ok p => simp [NR]
+            | error e => simp only; intro hc'; simp only [Except.error.injEq] at hc'; subst hc'; exact hr rfl
+        | _ => simp [valid] at hs
+    · simp at hbr
+  · simp at hbr
+
+end TypifyModel.Conv
